@@ -58,6 +58,10 @@ def plan(tier, seed):
         specs.append({'id': 'c16x-%d' % i, 'mode': 'repeat', 'kind': 'file', 'exhaust': True,
                       'npos': 4, 'rounds': 30 if tier == 'quick' else 120,
                       'seed': '%s/C16/x%d' % (seed, i)})
+    for i in range(max(4, n_rep // 10)):
+        specs.append({'id': 'c16d-%d' % i, 'mode': 'repeat', 'kind': 'file', 'dynparams': True,
+                      'npos': 4, 'rounds': 20 if tier == 'quick' else 80,
+                      'seed': '%s/C16/d%d' % (seed, i)})
     specs.append({'id': 'c16w-import-dup', 'mode': 'proc', 'kind': 'file', 'seed': 'w',
                   'text': WITNESS_TEXT, 'positions': [[1, 27], [1, 22]], 'npos': 2,
                   'methods': ['complete'], 'hashseeds': [str(x) for x in range(8)]})
@@ -221,9 +225,55 @@ def exhaust_text(rnd):
     return '\n'.join(L) + '\n', pos
 
 
+def dynparams_text(rnd):
+    """Un-annotated functions whose parameter types jedi finds by searching the call sites
+    (dynamic parameter search): recursive helpers that pass their own parameter on to
+    themselves, and plain functions called from many sites with different argument types."""
+    L = ['class Tree:', '    def __init__(self, left=None, right=None):', '        self.left = left',
+         '        self.right = right', '']
+    pos = []
+    nrec = rnd.randint(1, 3)
+    for i in range(nrec):
+        shape = rnd.choice(['two', 'one', 'mutual'])
+        if shape == 'two':
+            L += ['def depth%d(node%d):' % (i, i), '    if node%d is None:' % i, '        return 0',
+                  '    return 1 + depth%d(node%d.left) + depth%d(node%d.right)' % (i, i, i, i), '']
+            pos.append((len(L) - 1, L[-2].index('node%d.left' % i) + 1))
+        elif shape == 'one':
+            L += ['def walk%d(item%d, acc%d):' % (i, i, i), '    if not acc%d:' % i, '        return item%d' % i,
+                  '    return walk%d(item%d, acc%d[1:])' % (i, i, i), '']
+            pos.append((len(L) - 1, L[-2].index('item%d,' % i) + 1))
+        else:
+            L += ['def ping%d(obj%d, n%d):' % (i, i, i), '    return pong%d(obj%d, n%d - 1) if n%d else obj%d' % (i, i, i, i, i), '',
+                  'def pong%d(obj%d, n%d):' % (i, i, i), '    return ping%d(obj%d, n%d)' % (i, i, i), '']
+            pos.append((len(L) - 1, L[-2].index('obj%d,' % i) + 1))
+    nplain = rnd.randint(1, 3)
+    values = ['1', '2.5', "'s'", '[1]', '(1, 2)', "{'k': 1}", 'Tree()', 'None', 'b"x"', '{1, 2}', 'True', '3j']
+    plain_pos = []
+    for i in range(nplain):
+        L += ['def scale%d(value%d, factor%d=2):' % (i, i, i), '    result%d = value%d' % (i, i),
+              '    return result%d' % i, '']
+        plain_pos.append((len(L) - 2, L[-3].index('value%d' % i) + 1))
+    for i in range(nrec):
+        L += ['depth%d(Tree(Tree(), None))' % i if any(l.startswith('def depth%d' % i) for l in L) else
+              ('walk%d(1, [1, 2])' % i if any(l.startswith('def walk%d' % i) for l in L) else 'ping%d(Tree(), 3)' % i)]
+    for i in range(nplain):
+        k = rnd.randint(6, 12)
+        for v in rnd.sample(values, k):
+            L.append('scale%d(%s)' % (i, v))
+    return '\n'.join(L) + '\n', pos, plain_pos
+
+
 def run_repeat(spec):
     from vf.driver import digest
-    if spec.get('exhaust'):
+    dyn = None
+    if spec.get('dynparams'):
+        rnd = random.Random(spec['seed'])
+        text, rec_pos, plain_pos = dynparams_text(rnd)
+        fixed_pos = None
+        near = None
+        dyn = (rec_pos, plain_pos)
+    elif spec.get('exhaust'):
         rnd = random.Random(spec['seed'])
         text, fixed_pos = exhaust_text(rnd)
         near = None
@@ -243,10 +293,16 @@ def run_repeat(spec):
     if not ok:
         res['inconclusive'] = ['Script() raised (C01)']
         return res
-    pos = fixed_pos or mutate.positions(text, rnd, spec['npos'], near=near)
-    pool = [(m, l, c) for (l, c) in pos for m in METHODS + ['get_names', 'rename']]
-    rnd.shuffle(pool)
-    pool = pool[:8]
+    if dyn:
+        # queries on the parameters of the recursive helpers first, those on the many-call-site
+        # parameters after them (and all of them again in random order later)
+        pool = [(m, l, c) for (l, c) in dyn[0] for m in ('infer', 'goto', 'help')] + \
+               [(m, l, c) for (l, c) in dyn[1] for m in ('infer', 'help')]
+    else:
+        pos = fixed_pos or mutate.positions(text, rnd, spec['npos'], near=near)
+        pool = [(m, l, c) for (l, c) in pos for m in METHODS + ['get_names', 'rename']]
+        rnd.shuffle(pool)
+        pool = pool[:8]
     exhausting = dependent = None
     if fixed_pos:
         # directed: every budget-exhausting query is followed by every query that needs the
@@ -299,7 +355,7 @@ def run_repeat(spec):
         # be); switches restored in finally blocks must survive that, and later answers too
         # (only in the random cases and only in the second half of the sequence, so that the
         # directed cases and the first half stay free of it)
-        if not fixed_pos and step >= len(seq) // 2 and rnd.random() < 0.2:
+        if not fixed_pos and not dyn and step >= len(seq) // 2 and rnd.random() < 0.2:
             victim = rnd.choice(pool)
             try:
                 with work.measure(rnd.choice([300, 2000, 10000, 40000])):
